@@ -4,7 +4,7 @@ package ackhandler
 //vx:entry Harness_C06_sph Harness_C06_skipped
 //vx:reach Harness_C06_skipped C06.skip.happened C06.skip.rejected C06.skip.second-ack
 //vx:param quick steps=3
-//vx:param thorough steps=4
+//vx:param thorough steps=3
 //vx:reach Harness_C06_sph C06.sent C06.acked C06.lost C06.ack-unsent C06.timeout C06.dropped C06.timer-set C06.probe-queued C06.migrated C06.retry
 
 import (
